@@ -13,6 +13,7 @@ import (
 	cerrors "github.com/onflow/cadence/errors"
 	"github.com/onflow/cadence/sema"
 
+	"verif/gen/cdcval"
 	"verif/mc"
 	"verif/rt"
 )
@@ -287,11 +288,20 @@ func judge(o *oracle, T sema.Type, script bool, sent []string, res *rt.Result, o
 	if script {
 		if class, detail := roundTrip(res.Value); class != "" {
 			return judgement{status: "violation",
-				sig:    fmt.Sprintf("returned-value|%s|%s|%s", class, siteOf(detail), normMsg(detail)),
+				sig:    returnSig(class, detail, res.Value),
 				detail: fmt.Sprintf("returned value %s: %s", trunc(safeString(res.Value), 200), trunc(detail, 300))}
 		}
 	}
 	return j
+}
+
+// returnSig is the signature of a round-trip failure: the codec's message class, or - where the decoded value
+// differs - the shape of the value.
+func returnSig(class, detail string, v cadence.Value) string {
+	if strings.HasSuffix(class, "-differs") {
+		return fmt.Sprintf("returned-value|%s|%s", class, cdcval.Shape(v))
+	}
+	return fmt.Sprintf("returned-value|%s|%s|%s", class, siteOf(detail), normMsg(detail))
 }
 
 // decoderFails: the JSON-CDC decoder (what the host calls) refuses the bytes.
@@ -670,9 +680,9 @@ func replayC29(env *mc.Env, raw json.RawMessage) (bool, string) {
 func init() {
 	mc.Register(&mc.Check{
 		ID: "C29",
-		Rule: "every importable, denotable parameter type of tygen.Universe(1) (plus 20 nested types over a second contract D; thorough: plus two members of every depth-2 constructor shape) " +
+		Rule: "every importable, denotable parameter type of tygen.Universe(1) (plus 20 nested types over a second contract D, plus 34 types over the value universe's own contract in a second deployment; thorough: plus two members of every depth-2 constructor shape) " +
 			"x every argument of {cdcval.Values(1) (thorough: Values(2)), 25 malformed encodings, 1-4 right-typed values built for the type, every single structural mutation of each " +
-			"(every nested value node retyped to each of 15 (25) replacement values incl. resource/function/event/contract, wrapped/unwrapped optional, composite field missing/extra/duplicated/renamed/reordered/values swapped, " +
+			"(every nested value node retyped to each of 16 (25) replacement values incl. resource/function/event/capability, wrapped/unwrapped optional, composite field missing/extra/duplicated/renamed/reordered/values swapped, " +
 			"11 type-ID variants, 4 kind tags, array longer/shorter, duplicate dictionary key, capability borrow type and type-value variants), 0 and 2 arguments}, JSON-CDC encoded, " +
 			"x script/transaction x interpreter/VM, each executed through runtime.ExecuteScript/ExecuteTransaction; the program reports the received value (script result / event) and its type; " +
 			"oracle: user-class rejection before the program is entered, or the received value deeply conforms to the sema parameter type by an independent recursive walk (sema.IsSubType at leaves), " +
